@@ -388,13 +388,17 @@ Proof.
     { clear - Ef H3. induction (cs_ids s) as [|[k v] r IH]; cbn in Ef; [discriminate|].
       destruct (h =? k); [injection Ef as ->; apply (H3 k id); left; auto|].
       apply IH; auto. intros h0 id0 Hin. apply (H3 h0 id0). right. auto. }
-    destruct (nm_find _ (cs_names s)); [|destruct (ht_entry_hangs (cs_names s)); [exact I|]];
+    destruct (nm_find _ (cs_names s));
+      [unfold name_checked; destruct (global_name_checked && _); [exact I|]
+      |destruct (ht_entry_hangs (cs_names s)); [exact I|]];
       (split; [constructor; cbn; auto | exact Hid]).
   - destruct (ht_entry_hangs (cs_ids s)); [exact I|].
     assert (Hnv : (cs_next_var s + 1) mod two32 < two32) by (apply N.mod_lt; discriminate).
     assert (Hids : forall h0 id0, In (h0, id0) (nm_insert h (cs_next_var s) (cs_ids s)) -> id0 < two32).
     { intros h0 id0 Hin. apply in_nm_insert in Hin. destruct Hin as [[-> ->]|Hin]; eauto. }
-    destruct (nm_find _ (cs_names s)); [|destruct (ht_entry_hangs (cs_names s)); [exact I|]];
+    destruct (nm_find _ (cs_names s));
+      [unfold name_checked; destruct (global_name_checked && _); [exact I|]
+      |destruct (ht_entry_hangs (cs_names s)); [exact I|]];
       (split; [constructor; cbn; auto | exact H2]).
 Qed.
 
